@@ -1205,9 +1205,23 @@ func (c *Conn) readAll(r io.Reader, size int) (*[]byte, error) {
 		}
 		if len(*pbuf) == cap(*pbuf) {
 			l := len(*pbuf)
-			// can not extend more bytes.
+			// can not extend more bytes: the buffer is full at exactly
+			// the limit, and the message is only too large if the
+			// stream goes on.
 			if c.isMessageTooLarge(l + 1) {
-				return nil, ErrMessageTooLarge
+				var one [1]byte
+				n, err := r.Read(one[:])
+				if n > 0 {
+					c.Engine.BodyAllocator.Free(pbuf)
+					return nil, ErrMessageTooLarge
+				}
+				if err != nil {
+					if err == io.EOF {
+						err = nil
+					}
+					return pbuf, err
+				}
+				continue
 			}
 			al := l
 			if al > maxAppendSize {
